@@ -217,6 +217,8 @@ type Gen struct {
 	curPos  token.Pos
 	bodyless bool
 	strConsts map[string]Val
+	pendingArgAddrs map[string]*Addr
+	pendingFamMods []string
 	modEffs []Effect
 	famDeclLine map[string]int
 	curLoop *loopInfo
